@@ -17,7 +17,13 @@ BINARY_PROFILES = ["dev"]
 FINALS = [("42", "42"), ('"s t"', '"s t"'), ("null", "-"), ("[1, 2]", "[1, 2]"), ("let zz = 1;", "*"), ("true", "true"), ("'c'", "'c'"), ("1.5", "1.5"),
           ('puts("tail")', "-"), ("if false { 1 }", "-"), ("3 * 4", "12"), ("map {}", "map {}"), ("fn() { 1 }", "<closure>"), ("len", "<built-in function len>")]
 ERR_FINALS = ["1 / 0", "[1][5]", "undefined_name_q", "len(1)", "1 +"]
-ARGVS = [[], ["a"], ["a", "b c"], ["é", "日本"], ["--", "-x", "--flag"], ["1", "2", "3", "4"], ["first", "--", "-x", "--y"], ["one", "two", "--", "-x"], ["a", "--", "--"], ["", "x"]]
+ARGVS = [[], ["a"], ["a", "b c"], ["é", "日本"], ["--", "-x", "--flag"], ["1", "2", "3", "4"], ["first", "--", "-x", "--y"], ["one", "two", "--", "-x"], ["a", "--", "--"], ["", "x"],
+         # arguments spelled like the script path / like each other (a dispatch that removes argv[0] by value, or de-duplicates, loses them)
+         ["p.p2"], ["a", "p.p2", "b"], ["s.p2", "p.p2", "s.p2"], ["x", "x"], ["./p.p2", "p.p2"], ["-", "p.p2"]]
+
+
+# the first line of the shebang copy s.p2: any text up to the newline is a comment (non-ASCII paths, options, an empty `#!`)
+SHEBANGS = ["#!/usr/bin/env p2sh", "#!/home/józef/bin/p2sh", "#!/opt/パケット/bin/p2sh -s", "#!", "#!/usr/bin/env -S p2sh --skip-pcap \"é\" 'x'", "#! /bin/p2sh # 日本語のコメント 🎉"]
 
 
 def hx(s):
@@ -102,7 +108,7 @@ def run_one(exe, scratch, idx, c):
     with open(os.path.join(d, "p.p2"), "w", encoding="utf-8") as f:
         f.write(src)
     with open(os.path.join(d, "s.p2"), "w", encoding="utf-8") as f:
-        f.write("#!/usr/bin/env p2sh\n" + src)
+        f.write(SHEBANGS[idx % len(SHEBANGS)] + "\n" + src)
 
     def run(args):
         try:
@@ -133,7 +139,7 @@ def run_one(exe, scratch, idx, c):
     a1, a2 = argv_of(o1), argv_of(o2)
     diag1 = ("parse errors" in e1) or ("compile error" in e1)
     gate = (not diag1) or (o1 == "" and o2 == "" and o3 == "")
-    sheb = (o3.replace("@@A s.p2", "@@A p.p2") == o1) and (shift_lines(e1, 1) == e3)
+    sheb = (o3.replace("@@A s.p2\n", "@@A p.p2\n", 1) == o1) and (shift_lines(e1, 1) == e3)
     enc = lambda xs: "?" if xs is None else ",".join(hx(x) for x in xs)
     if diag1:
         # nothing ran: argv cannot be observed
